@@ -529,6 +529,38 @@ def set_box_case(dependent):
     return Case(cname, body, goals, family="product_set_bounding_box", params=dict(dependent=dependent))
 
 
+def operand_box_kept_case(op):
+    """history: the box of a combination is asked, then the boxes of its operands again -- they are what they were before
+    (the first operand is a product with a USER-SET box, which is handed out as the user's own list)"""
+    cname = "operand_boxes_kept/%s" % op
+
+    def body(env):
+        L = env.L
+        a1, b1 = SH.circle(env, tag="A"), SH.interval(env, tag="B", var="t")
+        a2, b2 = SH.circle(env, tag="C"), SH.interval(env, tag="D", var="t")
+        p1, p2 = a1.dom * b1.dom, a2.dom * b2.dom
+        for sh in (a1, b1, a2, b2):
+            env.assume(sh.oset.positive({}, L))
+        ub = env.tensor("ub", (6,))
+        user = [ub[i] for i in range(6)]
+        p1.set_bounding_box(user)
+        with minmax_mode(env, "ite"):
+            before1, before2 = list(p1.bounding_box()), list(p2.bounding_box())
+            comb = {"intersection": p1 & p2, "union": p1 + p2, "cut": p1 - p2, "intersection_swapped": p2 & p1}[op]
+            comb.bounding_box()
+            comb.bounding_box()
+            after1, after2 = list(p1.bounding_box()), list(p2.bounding_box())
+        return dict(b1=before1, a1=after1, b2=before2, a2=after2, user_now=list(user), user=SH.elems(env, ub))
+
+    def goals(o, L, env):
+        for nm, x, y in (("first_operand", o["a1"], o["b1"]), ("second_operand", o["a2"], o["b2"]), ("users_list", o["user_now"], o["user"])):
+            yield "%s_length" % nm, len(x) == len(y) == 6
+            for i in range(min(len(x), len(y))):
+                yield "%s_box_unchanged[%d]" % (nm, i), req(L, x[i], y[i])
+
+    return Case(cname, body, goals, family="operand_boxes_kept", params=dict(op=op))
+
+
 # --------------------------------------------------------------------------
 # consumers
 # --------------------------------------------------------------------------
@@ -567,7 +599,13 @@ def normalize_case(name, mk, info):
             q += SH.elems(env, t)
         out = layer(Points.from_coordinates(coords))
         mem = sh.oset.closure(q, {}, L, 0)
-        return dict(out=out.as_tensor, mem=mem, d=d, shape=list(out.as_tensor.shape))
+        res = dict(out=out.as_tensor, mem=mem, d=d, shape=list(out.as_tensor.shape))
+        if len(sh.space_vars) > 1:
+            # the same layer object again, the same point with its variables in reverse order (as sampler_t * sampler_x
+            # delivers them): the named coordinates are the same, so is the image
+            out2 = layer(Points.from_coordinates({vn: coords[vn] for vn, _ in reversed(sh.space_vars)}))
+            res["out2"], res["keys"] = out2.as_tensor, (list(out.space.keys()), list(out2.space.keys()))
+        return res
 
     def goals(o, L, env):
         d = o["d"]
@@ -577,6 +615,10 @@ def normalize_case(name, mk, info):
         for a in range(d):
             y = o["out"][0][a]
             yield "member_mapped_into_unit_cube[axis%d]" % a, L.Implies(o["mem"], L.And(L.le(-1, y), L.le(y, 1)))
+        if "out2" in o:
+            yield "same_output_space_for_reordered_input", o["keys"][0] == o["keys"][1]
+            for a in range(d):
+                yield "reordered_input_same_image[axis%d]" % a, req(L, o["out2"][0][a], o["out"][0][a])
 
     return Case(cname, body, goals, family="normalize/" + name, params=dict(shape=name, **info), **_BOUNDS)
 
@@ -733,6 +775,8 @@ def cases(tier):
         cs.append(point_case(1, 2, "moving"))
     cs.append(set_box_case(False))
     cs.append(set_box_case(True))
+    for op in ("intersection", "union", "cut", "intersection_swapped"):
+        cs.append(operand_box_kept_case(op))
     reps_q = ("Interval", "Circle", "Parallelogram", "(Circle+Parallelogram)", "(Interval-Interval)", "(Circle*Interval)",
               "Translate(Circle)", "Rotate<matrix>(Circle)")
     reps_t = reps_q + ("Triangle", "Sphere", "(Circle-Parallelogram)", "(Circle&Circle)", "Translate(Parallelogram)", "(Interval+Interval)", "(Interval&Interval)", "(Parallelogram*Interval)")
